@@ -67,5 +67,12 @@ Proof.
     (split; [cbn; lia | split; [reflexivity | vm_compute; lia]]).
 Qed.
 
+(* no cell lost or duplicated: the refined mesh has one cell per untouched cell, 4 per red, 3 per blue, 2 per green *)
+Lemma split_cell_count res cls cs :
+  length cls = length cs ->
+  length (grouped res flat cls cs)
+  = list_sum (map (fun c => class_size gen_split_blocks c * count_cls cls c) (seq 0 (length gen_split_blocks))).
+Proof. intros H. rewrite (grouped_length res flat cls cs H). cbn. lia. Qed.
+
 (* MeshLine1._adaptive: the subdomain map in force gives the cells that replace cell k *)
 Definition line_map_ok : Prop := forall nt marked k, gen_line_adapt_children nt marked k = line_children nt marked k.
